@@ -91,9 +91,15 @@ inductive PEv
   | deb (e : Ev)                -- any other event of the debounce loop and its goroutines
   | startPush                   -- the oldest entered `pushFn` reaches `StartPush`
   | snd (e : SEv)               -- sender, stream loops, clients closing, server stop (not `enq`)
+  | proxyUpdate (c : Conn) (ver : Nat)   -- `ProxyUpdate`: the second caller of `Enqueue`: a forced request for one
+                                -- connection carrying `globalPushContext()` (never older than the context of the last
+                                -- `StartPush`; it is published a moment before `StartPush` enqueues)
   | register (c : Conn)         -- `addCon`
   | unregister (c : Conn)       -- `removeCon`
   | mark                        -- ghost: start the logs afresh (no effect on the system)
+
+/-- The request `ProxyUpdate` enqueues. -/
+def puView (ver : Nat) : View := { forced := true, push := some ver, reason := some [("proxy", 1)] }
 
 def isRecv : Ev → Bool
   | .recv _ => true
@@ -151,6 +157,12 @@ def stepP (p : Pipe) : PEv → Option Pipe
         | .stopExit c => some { p with snd := s', dropLog := p.dropLog ++ [(c, flightPush p.snd c, flightFacts p.snd c)] }
         | _ => some { p with snd := s' }
       | none => none
+  | .proxyUpdate c ver =>
+    if p.version ≤ ver ∧ p.conns.contains c = true then
+      some { p with enqLog := if p.snd.q.down then p.enqLog else p.enqLog ++ [(c, some ver, factsV (puView ver))]
+                    snd := { p.snd with q := enqueueAll { p.snd.q with heap := allocView p.snd.q.heap (puView ver) }
+                                                        p.snd.q.heap.reqs.length [c] } }
+    else none
   | .register c => some { p with conns := if p.conns.contains c then p.conns else p.conns ++ [c] }
   | .unregister c => some { p with conns := p.conns.filter (· ≠ c) }
   | .mark => some { p with accepted := [], recvS := [], pushS := [], enqLog := [], seenLog := [], dropLog := [] }
